@@ -142,6 +142,7 @@ def gen_hyper(rng, pair):
                  x=[round(rng.uniform(-2, 2), 3), round(rng.uniform(-2, 2), 3)])
         if pair == "mvn_full":      # the textbook form: multivariate normal likelihood, loc = the latent mean
             h["S"] = spd()
+        h["qparam"] = rng.choice(["covariance_matrix", "precision_matrix", "scale_tril"])
     return h
 
 
@@ -384,8 +385,19 @@ def build_spec(h, qclass, perturb):
         jd += [like,
                D("prior", "torch.distributions.MultivariateNormal", "mu",
                  {"loc": m0, "covariance_matrix": S0})]
+        # the three parameterisations of the variational multivariate normal
+        qpar = h.get("qparam", "covariance_matrix")
+        if qpar == "precision_matrix":
+            qmat, _ = _inv2(qS)
+            qmat = [[qmat[0][0], (qmat[0][1] + qmat[1][0]) / 2], [(qmat[0][1] + qmat[1][0]) / 2, qmat[1][1]]]
+        elif qpar == "scale_tril":
+            l11 = math.sqrt(qS[0][0])
+            l21 = qS[1][0] / l11
+            qmat = [[l11, 0.0], [l21, math.sqrt(qS[1][1] - l21 * l21)]]
+        else:
+            qmat = qS
         qd.append({"id": "q.mu", "type": "MultivariateNormal", "x": "mu",
-                   "parameters": {"loc": P("q.loc", qm), "covariance_matrix": P("q.cov", qS)}})
+                   "parameters": {"loc": P("q.loc", qm), qpar: P("q.cov", qmat)}})
         s.fire += ["q.loc"]
         lp_terms.append((lambda lat: _mvn_lpdf(lat, S, x) + _mvn_lpdf(m0, S0, lat), 2))
         lq_terms.append((lambda lat: _mvn_lpdf(qm, qS, lat), 2))
@@ -700,6 +712,65 @@ def within(x, iv, tol):
     return lo - t <= Fraction(x) <= hi + t
 
 
+# ----------------------------------------------------------------------------- objects built with the public constructors
+
+def constructor_built(rng):
+    """The gamma-exponential model through exp (z = exp(u), Jacobian term u) built with the PUBLIC CONSTRUCTORS and
+    anonymous objects (id None), as the repository's tests build theirs — not from JSON.  q = exact posterior:
+    every objective must return the log marginal likelihood.  -> list of (key, text, replay)"""
+    torch = impl.load()
+    from collections import OrderedDict
+    from torchtree import Parameter
+    from torchtree.core.parameter import TransformedParameter
+    from torchtree.distributions.distributions import Distribution
+    from torchtree.distributions.joint_distribution import JointDistributionModel
+    from torchtree.variational.kl import ELBO
+    from torchtree.variational.renyi import VR
+    out = []
+    a, b = round(rng.uniform(1.0, 4.0), 2), round(rng.uniform(0.5, 3.0), 2)
+    xs = [round(rng.uniform(0.1, 2.5), 3) for _ in range(rng.randint(1, 4))]
+    n, sx = len(xs), math.fsum(xs)
+    logml = a * math.log(b) - math.lgamma(a) + math.lgamma(a + n) - (a + n) * math.log(b + sx)
+    T = lambda v: torch.tensor(v, dtype=torch.float64)
+    for layout in ("flat", "nested"):
+        u = Parameter(None, T([0.1]))
+        z = TransformedParameter(None, u, torch.distributions.ExpTransform())
+        like = Distribution(None, torch.distributions.Exponential, Parameter(None, T(xs)), OrderedDict(rate=z))
+        prior = Distribution(None, torch.distributions.Gamma, z,
+                             OrderedDict(concentration=Parameter(None, T([a])), rate=Parameter(None, T([b]))))
+        if layout == "flat":
+            joint = JointDistributionModel(None, [prior, like, z])
+        else:
+            joint = JointDistributionModel(None, [JointDistributionModel(None, [prior, like]), z])
+        qz = Distribution(None, torch.distributions.Gamma, z,
+                          OrderedDict(concentration=Parameter(None, T([a + n])), rate=Parameter(None, T([b + sx]))))
+        q = JointDistributionModel(None, [qz, z])
+        # the density itself at a fixed point
+        want = (math.fsum(0.1 - math.exp(0.1) * x for x in xs) + a * math.log(b) - math.lgamma(a)
+                + (a - 1) * 0.1 - b * math.exp(0.1) + 0.1)
+        got = float(joint().sum())
+        if not abs(got - want) <= 1e-9 * max(1.0, abs(want)):
+            out.append((f"C14:constructor-built:{layout}:joint", f"joint of anonymous objects built with the constructors "
+                        f"({layout} layout) returns {got!r}, closed form {want!r}",
+                        dict(layout=layout, a=a, b=b, xs=xs)))
+            continue
+        for name, obj in (("ELBO", ELBO(None, q, joint, torch.Size([3]))),
+                          ("ELBO[S,K]", ELBO(None, q, joint, torch.Size([2, 3]))),
+                          ("VR", VR(None, q, joint, torch.Size([4]), alpha=0.5))):
+            torch.manual_seed(rng.randrange(2 ** 31))
+            try:
+                v = float(obj())
+            except Exception as e:  # noqa
+                out.append((f"C14:constructor-built:{layout}:{name}:raises", f"{name} on objects built with the "
+                            f"constructors ({layout}): {type(e).__name__}: {str(e)[:120]}", dict(layout=layout)))
+                continue
+            if not abs(v - logml) <= 1e-8 * max(1.0, abs(logml)):
+                out.append((f"C14:constructor-built:{layout}:{name}", f"{name} at the exact posterior, objects built with "
+                            f"the constructors ({layout} layout): {v!r}, log marginal likelihood {logml!r}",
+                            dict(layout=layout, a=a, b=b, xs=xs, objective=name)))
+    return out
+
+
 # ----------------------------------------------------------------------------- run
 
 def public(c):
@@ -897,6 +968,15 @@ def run(tier, seed, replay=None):
                                                         f"[{float(ivs[0][0])!r}, {float(ivs[0][1])!r}]",
                               dict(case=public(c)), False)
 
+    crng = random.Random(seed + 31)
+    for _ in range(3 if tier == "quick" else 20):
+        try:
+            fs = constructor_built(crng)
+        except Exception as e:  # noqa
+            fs = [(f"C14:constructor-built:raises:{type(e).__name__}", f"{type(e).__name__}: {str(e)[:160]}", {})]
+        rep.case(dict(constructor_built=_), nontrivial=True)
+        for f in fs:
+            rep.violation(*f)
     rep.rule = ("grid objective in {ELBO, ELBO(entropy), VR(alpha in .5,2,0,-1.5), CUBO(n in 2,1.5), KLpq} x sample "
                 "shape in {[1..8]} + {[1,3],[2,1],[2,2],[3,4],[4,2],[2,5]} (thorough: all [1..8,1..5], [16], [32]) x "
                 "q in {JointDistributionModel, bare Distribution} x {q = exact posterior, q perturbed}; conjugate pair "
